@@ -115,3 +115,19 @@ def sleepy(x):
     _mark('sleepy', x)
     time.sleep(x)
     return ('slept', x)
+
+
+class TaskFailed(Exception):
+    pass
+
+
+def work_convert(x):
+    """Wraps whatever interrupts it -- including the SystemExit of a
+    termination signal -- into an ordinary exception."""
+    _mark('work_convert', x)
+    try:
+        _pt(1)
+        _pt(2)
+    except BaseException as exc:
+        raise TaskFailed('wrapped', x) from exc
+    return ('done', x)
